@@ -139,3 +139,30 @@ package raftlog
 //@   loop 1
 //@     invariant fw != nil && fw.cache == old(fw.cache) && slotIdx <= i
 //@     invariant forall j int :: slotIdx <= j && j < i && j < len(fw.cache) ==> !fw.cache[j].szCached && !fw.cache[j].slotCached && len(fw.cache[j].data) == 0
+
+// A rotated file that was closed because its data reached the size limit has unused slots at its end: an empty
+// slot ends the LOG only in the current file; in a rotated file the scan moves on to the next file (otherwise
+// Entries(lo, hi) silently returns a shortened range).
+//@ func (*entryLog).allEntries
+//@   requires hi > 0
+//@   ghost z bool = false
+//@   call (*entryLog).slotGe
+//@     frame nothing
+//@   call (*entryLog).getEntryFile
+//@     frame nothing
+//@   call (*logFile).getRaftEntry
+//@     set z = (ret1 == nil && ret0.Index == 0 && fileIdx != -1)
+//@     frame nothing
+//@   call .Size
+//@     frame nothing
+//@   ensures [empty_slot_of_rotated_file_is_not_the_end] !z
+//@   loop 1
+//@     invariant z ==> (offset >= 30000 && fileIdx != -1)
+
+// slotGe: a rotated file that starts exactly at the requested index is the answer, at slot 0.
+//@ func (*entryLog).slotGe
+//@   ghost eq bool = false
+//@   call (*logFile).firstIndex
+//@     set eq = (ret0 == raftIndex)
+//@   ensures [file_starting_at_index] eq ==> result1 == 0
+
